@@ -220,7 +220,7 @@ pub fn main(args: &util::Args) {
             max_depth: 1 + i % 3,
             effects: true,
             wildcard_arrays: i % 10 == 8,
-            nested_patterns: false,
+            nested_patterns: i % 4 == 1,
         };
         let (src, feats) = crate::progen::gen_program(&mut rng, cfg);
         let id = format!(
